@@ -86,16 +86,25 @@ pub fn dump_rule(f: &NetworkFilter, rx: bool) -> String {
     )
 }
 
-/// For a complete-regex rule: what the `regex` crate answers on the request (external parameter
-/// of the model).
+/// For a complete-regex rule: what the `regex` crate answers on the request (external parameter of the
+/// model), computed here WITHOUT going through the crate's `compile_regex` / `RegexManager`: the text
+/// between the slashes (with the two escapes `\/` and `\:` the crate undoes), compiled as a byte regex
+/// without Unicode classes, searched in the request URL (lower-cased unless the rule is match-case).
 pub fn rx_hint(f: &NetworkFilter, req: &Request) -> bool {
     if !f.mask.contains(NetworkFilterMask::IS_COMPLETE_REGEX) {
         return false;
     }
-    let mut rm = RegexManager::default();
-    let mut mask = f.mask;
-    mask.remove(NetworkFilterMask::IS_HOSTNAME_ANCHOR);
-    adblock::filters::verif::check_pattern(mask, f.filter.iter(), None, 1, req, &mut rm)
+    let url = if f.mask.contains(NetworkFilterMask::MATCH_CASE) { req.url.clone() } else { req.url.to_ascii_lowercase() };
+    f.filter.iter().any(|p| {
+        if p.len() < 2 || !p.is_char_boundary(1) || !p.is_char_boundary(p.len() - 1) {
+            return false;
+        }
+        let inner = p[1..p.len() - 1].replace("\\/", "/").replace("\\:", ":");
+        match regex::bytes::RegexBuilder::new(&inner).unicode(false).build() {
+            Ok(re) => re.is_match(url.as_bytes()),
+            Err(_) => false,
+        }
+    })
 }
 
 pub struct Req {
